@@ -2,6 +2,7 @@ package circuit
 
 import (
 	"math/big"
+	"sync/atomic"
 
 	"github.com/markkurossi/mpc/ot"
 	"github.com/markkurossi/mpc/zzverif"
@@ -104,6 +105,7 @@ func verifC17History() {
 	g3, err := c.Garble(verifRandTag{"rand3"}, key)
 	zzverif.Assert(err == nil, "Garble 3 ok")
 	zzverif.Assert(&g3.Wires[0] != &g2.Wires[0], "a later garbling never takes the buffers of a garbling that is still live")
+	g1.Release() // a stale handle released once more after its scratch may have been reused: must stay harmless
 	verifC17Use(c, g2, key, v2, "g2 (live across another garbling's release and reuse)")
 	verifC17Use(c, g3, key, v3, "g3 (possibly on reused scratch)")
 	g2.Release()
@@ -139,7 +141,9 @@ func verifC17Concurrent(k, rounds int) {
 				g, err := c.Garble(verifRandTag{"rand." + tag}, key)
 				zzverif.Assert(err == nil, "Garble ok under concurrency")
 				if err == nil {
+					verifSchedPoint() // the garbling is handed to its consumer: a real scheduler can switch here
 					verifC17Use(c, g, key, v, "goroutine "+tag)
+					verifSchedPoint()
 					g.Release()
 					g.Release()
 				}
@@ -153,6 +157,13 @@ func verifC17Concurrent(k, rounds int) {
 	zzverif.Assert(c.garblePool.Load() != nil, "exactly one pool is installed")
 	zzverif.Reach("end")
 }
+
+var verifSchedDummy int32
+
+// verifSchedPoint is a preemption point of the engine's scheduler (an atomic
+// load of a private variable): it stands for "the goroutine can be
+// descheduled here", which is true of every program point.
+func verifSchedPoint() { _ = atomic.LoadInt32(&verifSchedDummy) }
 
 func verifC17Conc2()   { verifC17Concurrent(2, 1) }
 func verifC17Conc2x2() { verifC17Concurrent(2, 2) }
